@@ -83,7 +83,7 @@ def run_api(base, chk, fname, nslice=2, log_reads=False, leak=False, variant="di
         for i, p in enumerate(f["params"]):
             t = p["type"]
             if t == ST:
-                args.append(mk(i, t, lambda: X.Ptr(ex.new_obj(path, prog.T(E + "Scalar"), name="s%d" % i, init=[Abs(dom.input("s%d" % i, 0, K.L - 1), False, "mont")]))))
+                args.append(mk(i, t, lambda: X.Ptr(ex.new_obj(path, prog.T(E + "Scalar"), name="s%d" % i, init=[scalarmode.SAbs(dom.input("s%d" % i, 0, K.L - 1), False, "mont")]))))
             elif t == "[]byte" or t == "[]uint8":
                 n = {"SetUniformBytes": 64}.get(short, 32)
                 bs = [dom.input("x[%d]" % j, 0, 255) for j in range(n)]
@@ -102,7 +102,7 @@ def run_api(base, chk, fname, nslice=2, log_reads=False, leak=False, variant="di
                     if isinstance(q, X.Ptr):
                         ex_.load(p_, q)
                 cnt[0] += 1
-                ex_.store(p_, a_[0], Abs(dom.input("t%d" % cnt[0], 0, K.L - 1), False, "mont"))
+                ex_.store(p_, a_[0], scalarmode.SAbs(dom.input("t%d" % cnt[0], 0, K.L - 1), False, "mont"))
             ex.summaries[E + "fiatScalarMul"] = fresh_out
             ex.summaries[E + "fiatScalarSub"] = fresh_out
 
